@@ -19,13 +19,18 @@ Record tlscfg := mkCfg {
   c_insecure : bool;            (* InsecureSkipVerify *)
   c_name     : list Z;          (* ServerName (bytes of the Go string) *)
   c_roots    : option nat;      (* RootCAs: nil | address of a pool object *)
-  c_ncerts   : nat              (* len(Certificates) *)
+  c_ncerts   : nat;             (* len(Certificates) *)
+  c_other    : Z                (* every OTHER field of tls.Config (VerifyPeerCertificate, VerifyConnection,
+                                   ClientAuth, MinVersion, MaxVersion, NextProtos, CipherSuites,
+                                   GetClientCertificate, ClientSessionCache, ...) as one opaque value: the
+                                   anchored code copies it (Clone) and never reads or writes it -- no
+                                   definition below mentions c_other except to carry it along *)
 }.
 
 (* a pool is the list of certificates it holds (certificates are identified by a number) *)
 Record heap := mkHeap { h_cfgs : list tlscfg; h_pools : list (list Z) }.
 
-Definition zero_cfg : tlscfg := mkCfg false [] None 0.          (* tls.Config{} *)
+Definition zero_cfg : tlscfg := mkCfg false [] None 0 0.        (* tls.Config{} *)
 Definition get_cfg (h : heap) (a : nat) : tlscfg := nth a (h_cfgs h) zero_cfg.
 Definition get_pool (h : heap) (p : nat) : list Z := nth p (h_pools h) [].
 
@@ -36,10 +41,10 @@ Definition alloc_pool (h : heap) : heap * nat :=                 (* x509.NewCert
   (mkHeap (h_cfgs h) (h_pools h ++ [[]]), length (h_pools h)).
 Definition set_pool (h : heap) (p : nat) (s : list Z) : heap := mkHeap (h_cfgs h) (upd (h_pools h) p s).
 
-Definition with_insecure (c : tlscfg) (b : bool) : tlscfg := mkCfg b (c_name c) (c_roots c) (c_ncerts c).
-Definition with_name (c : tlscfg) (n : list Z) : tlscfg := mkCfg (c_insecure c) n (c_roots c) (c_ncerts c).
-Definition with_roots (c : tlscfg) (r : option nat) : tlscfg := mkCfg (c_insecure c) (c_name c) r (c_ncerts c).
-Definition with_ncerts (c : tlscfg) (n : nat) : tlscfg := mkCfg (c_insecure c) (c_name c) (c_roots c) n.
+Definition with_insecure (c : tlscfg) (b : bool) : tlscfg := mkCfg b (c_name c) (c_roots c) (c_ncerts c) (c_other c).
+Definition with_name (c : tlscfg) (n : list Z) : tlscfg := mkCfg (c_insecure c) n (c_roots c) (c_ncerts c) (c_other c).
+Definition with_roots (c : tlscfg) (r : option nat) : tlscfg := mkCfg (c_insecure c) (c_name c) r (c_ncerts c) (c_other c).
+Definition with_ncerts (c : tlscfg) (n : nat) : tlscfg := mkCfg (c_insecure c) (c_name c) (c_roots c) n (c_other c).
 
 (* CertPool.AddCert: a certificate already in the pool is not added again *)
 Definition add_cert (pool : list Z) (c : Z) : list Z :=
@@ -71,7 +76,7 @@ Inductive sres := SErr (e : tlserr) | SOk (a : nat).
    else { tlsConfig = sslOpts.Config.Clone() } *)
 Definition st_config (h : heap) (o : sslopts) : heap * nat :=
   match o_config o with
-  | None => alloc_cfg h (mkCfg (negb (o_hv o)) [] None 0)
+  | None => alloc_cfg h (mkCfg (negb (o_hv o)) [] None 0 0)
   | Some ca => alloc_cfg h (get_cfg h ca)
   end.
 
